@@ -23,7 +23,10 @@ RULE = ("sentences of 1..10 values generated from (value, spelling) choices of d
 TRUSTED = ["harness/h_C10.cpp", "the generator's own denotation of each spelling (Python), incl. Python's "
            "float() for decimal floating point literals"]
 ASSUMPTIONS = ["TZ=UTC; glibc sscanf", "decimal floating point literals are chosen so that double rounding "
-               "(decimal -> double -> float) cannot differ from strtof"]
+               "(decimal -> double -> float) cannot differ from strtof",
+               "the manual does not say how an integer literal with a leading 0 is read: the oracle follows the "
+               "code's format selection - a plain \"077\" is read by %d (decimal, 77), the suffixed \"077i\" by "
+               "%i (octal, 63); a reading of the documentation under which both are octal would make \"077\" a finding"]
 
 def hx(b):
     return bytes(b).hex() if len(b) else "-"
@@ -53,6 +56,10 @@ def spell_str(rng, b, sym):
             out += '"\\' + rng.choice(["", " ", "\n", "\n    ", " \t "]) + '"'
     return out + '"' + ("S" if sym else "")
 
+def hexdigits(rng, v):
+    """hexadecimal digits of v, in lower or upper case (C11_grammar_...: GHex is given by its digits)"""
+    return ("%x" if rng.random() < 0.7 else "%X") % v
+
 def word(rng):
     """(text, [slots]) of one value in a randomly chosen spelling"""
     k = rng.choice("iiihhfffdcsSSkrmb")
@@ -65,11 +72,11 @@ def word(rng):
         if sp == "dec":
             return sg + "%d" % v, ["i:%d" % sv]
         if sp == "hex":
-            return sg + "0x%x" % v, ["i:%d" % w32(sv)]
+            return sg + "0x" + hexdigits(rng, v), ["i:%d" % w32(sv)]
         if sp == "deci":
             return sg + "%di" % v, ["i:%d" % sv] if not ("%d" % v).startswith("0") or v == 0 else None
         if sp == "hexi":
-            return sg + "0x%xi" % v, ["i:%d" % w32(sv)]
+            return sg + "0x" + hexdigits(rng, v) + "i", ["i:%d" % w32(sv)]
         if sp == "octi":
             return sg + "0%oi" % v, ["i:%d" % sv]
         return sg + "0%d" % v, ["i:%d" % sv]          # 077 is read by %d: decimal
@@ -82,7 +89,7 @@ def word(rng):
         if sp == "dec":
             return sg + "%dh" % v, ["h:%d" % sv]
         if sp == "hex":
-            return sg + "0x%xh" % v, ["h:%d" % sv]
+            return sg + "0x" + hexdigits(rng, v) + "h", ["h:%d" % sv]
         return sg + "0%oh" % v, ["h:%d" % sv]
     if k in "fd":
         m = rng.choice([0, 1, 3, 5, 15, 25, 125, 1024, 12345])
@@ -233,7 +240,7 @@ def rich_array(rng, depth=0):
             it, isl = rich_array(rng, 1)
             q = rng.random()
             if q < 0.3:
-                m = rng.randint(2, 6)
+                m = rep_count(rng, 2, 6)
                 parts.append("%dx%s" % (m, it)); slots += ["R:%d:0" % m] + isl
             elif q < 0.45 and j == 0 and n == 1:
                 parts.append(it + sep(rng, False) + "..."); slots += ["R:0:0"] + isl
@@ -271,7 +278,7 @@ def rich_array(rng, depth=0):
             k2 = rng.choice("ihc")
             q = rng.random()
             if q < 0.3:
-                m = rng.randint(2, 5)
+                m = rep_count(rng, 2, 5)
                 v = rng.randint(60, 90) if k2 == "c" else rng.randint(-30, 30)
                 parts.append("%dx%s" % (m, _lit(k2, v))); slots += ["R:%d:0" % m, "%s:%d" % (k2, v)]
                 prev = (k2, v); last_ty = ord(k2)
@@ -387,6 +394,12 @@ def run_end_array(rng):
     nxt = b + d * n
     return text + sep(rng) + _tlit(k, nxt), ["a:%d:%d" % (ord(k), len(slots))] + slots + ["%s:%d" % (k, nxt)]
 
+# repetition counts: every digit pattern of "<n>x" (a zero digit inside: 10 20 30 100 101 105 110)
+REP_COUNTS = [10, 20, 30, 100, 101, 105, 110, 5, 6, 7, 8, 9, 11, 12, 99, 112]
+
+def rep_count(rng, lo, hi):
+    return rng.choice(REP_COUNTS) if rng.random() < 0.4 else rng.randint(lo, hi)
+
 def structured(rng):
     """ranges, repetitions, arrays: (text, slots)"""
     q = rng.random()
@@ -402,7 +415,7 @@ def structured(rng):
         return run_end_array(rng)
     q = rng.random()
     if q < 0.3:
-        n = rng.randint(1, 9)
+        n = rep_count(rng, 1, 9)
         t, sl = word(rng)
         while sl is None or " " in t or "\n" in t or t[0] in "+-0123456789." and False:
             t, sl = word(rng)
@@ -523,13 +536,47 @@ def nontrivial(case, impl):
     text = bytes.fromhex(f[1])
     return ";" in f[2] and (b"%" in text or b"0x" in text or b"..." in text or b"e" in text)
 
+def _array_ends(slots):
+    """indices of the last slot of every array in the flat slot list (nested arrays included)"""
+    ends = set()
+    for h, t in enumerate(slots):
+        if t.startswith("a:"):
+            try:
+                n = int(t.split(":")[2])
+            except (IndexError, ValueError):
+                continue
+            if n > 0:
+                ends.add(h + n)
+    return ends
+
 def classify(case, impl, failure):
-    """range-after-array: a range "b ... c" whose left neighbour is an array ending in a value of b's type"""
+    """range-after-array: a range "b ... c" directly behind an array whose last slot has b's type.  The
+    checker counts it with the unit step, the scanner takes the array's last value for the left neighbour:
+    the scanned slots differ from the denotation in that range's count and step ONLY (failure kind
+    denote; crashes, rejected or partly consumed texts and any other difference are not classified)."""
     import re
-    text = bytes.fromhex(case.split(" ")[1]).decode("latin-1")
-    text = re.sub(r"(^|\s)%[^\n]*", " ", text)
-    if re.search(r"[0-9a-zA-Z'\"]h?(\s*\])+\s+[-+0-9'][^\s]*\s+\.\.\.", text):
-        return "range-after-array"
+    f = case.split(" ")
+    if failure.startswith("denote: ") and "=" in impl:
+        d = fields(impl)
+        exp = f[2].split(";")
+        got = d.get("V", "-").split(";")
+        text = re.sub(r"(^|\s)%[^\n]*", " ", bytes.fromhex(f[1]).decode("latin-1"))
+        diff = [i for i in range(min(len(exp), len(got))) if exp[i] != got[i]]
+        if (len(exp) == len(got) and diff and re.search(r"\]\s+\S+\s+\.\.\.", text)):
+            p = diff[0]
+            ends = _array_ends(exp)
+            # the misread range, and the ranges of its type that follow it directly: each takes the
+            # last value of the one before for its left neighbour, so the wrong step is handed on
+            allowed, q = set(), p
+            while (q + 2 < len(exp) and exp[q].startswith("R:") and exp[q].endswith(":1")
+                   and got[q].startswith("R:") and got[q].endswith(":1") and exp[q + 2] == got[q + 2]
+                   and exp[q + 1][:1] == got[q + 1][:1] and exp[q + 2][:1] == exp[p + 2][:1]):
+                allowed |= {q, q + 1}
+                q += 3
+            if (allowed and all(i in allowed for i in diff)
+                    and (p - 1) in ends                      # the slot before the range closes an array
+                    and exp[p - 1][:1] == exp[p + 2][:1]):   # ... and has the type of the range's first value
+                return "range-after-array"
     if failure.startswith("reprint"):
         d = fields(impl)
         p2 = bytes.fromhex(d["P2"]) if d.get("P2", "-") != "-" else b""
@@ -545,5 +592,8 @@ LEVEL_TEXT = ("Partial. For every sentence of the modelled fragment (values of C
               "C11_simulation_partial, C11_ws_invariant_partial, C11_reprint_partial). Alternative numeric spellings, comments, "
               "identifiers, colours/MIDI/BLOB are in the model and compared with the implementation; NxA, ranges and arrays are "
               "now in the model and compared with the implementation; NxV repetitions are in the theorems (C11_elements_agree_partial); "
+              "the widened grammar (Grammar.v gtok/gword: suffix i, hexadecimal literals plain and with i/h, decimal floats without exact value plain and with f/d, comments between words) "
+              "is accepted by both recognisers and scanned to its denotation (C11_grammar_agree_denotes_partial, "
+              "C11_grammar_simulation_partial, C11_grammar_ws_invariant_partial); "
               "sentences of items and arrays of items without a range tail directly after an array: C10_mixed_reads_partial.")
 LEVEL_NOTE = "See notes/C11.md (fragment limits, known finding range-after-array)."
